@@ -143,6 +143,28 @@ def eval_c01(batches, tier, seed, known, info):
         elif len(out['samples']) < 2:
             out['samples'].append({'batch': b['dir'], 'funcs': b['static']['funcs'][:6], 'package': b['static']['package'], 'stage': b['status'].get('stage')})
     out['coverage'] = {'cases_compiled_and_linked_with_gogo_output': built, 'traces_validated_against_impl': out['evaluations'] - len(out['violations'])}
+    # known finding F10 (quarantined shape: the random generator never draws it): replay its witness on every run
+    if 'F10' in known:
+        import re
+        w = f"{pc.VERIF}/{known['F10']['witness']}"
+        d = f"{info['cache']}/w_F10"
+        if not os.path.exists(f'{d}/status.json'):
+            pc.sh([pc.BIN, 'batch', '-seed', '1', '-index', '0', '-work', d, '-plugin', pc.plugin_path(info['repoHash']), '-scale', '1', '-case', w],
+                  cwd=pc.HARNESS, timeout=900)
+        st = json.load(open(f'{d}/status.json')) if os.path.exists(f'{d}/status.json') else {'stage': 'crash'}
+        out['evaluations'] += 1
+        if st.get('stage') == 'build':
+            lines = [l for l in st.get('error', '').splitlines() if l.strip() and not l.startswith('#')]
+            sig = re.compile(r'obj\.(\w+) undefined \(type \*\w+_\w+ has no field or method \1\)')
+            other = [l for l in lines if not sig.search(l) and 'too many errors' not in l]
+            if other:
+                out['violations'].append({'kind': 'the witness of F10 fails to compile in a way the finding does not describe', 'batch': d, 'failures': other[:5]})
+            else:
+                out['known']['F10'] = 1
+        elif st.get('stage') == 'done':
+            out['coverage']['F10_witness'] = 'compiles now: the finding no longer reproduces'
+        else:
+            out['violations'].append({'kind': 'the witness of F10 could not be run', 'batch': d, 'failures': [json.dumps(st)[:400]]})
     return out
 
 
